@@ -7,16 +7,18 @@ from lockstep import run_impl, run_model, first_diff, shrink
 # property -> store/edge families whose correspondence it depends on
 STORE_FAMILIES = {
     "C01": ["pos", "buf", "bufedge", "fleet", "slot", "cbelt"], "C02": ["pos", "buf", "bufedge", "fleet", "slot", "cbelt"],
-    "C04": ["pos", "buf", "bufedge", "fleet", "slot"],
+    "C03": ["bufedge", "fleet", "slot", "cbelt"],      # the edge half of factory-wide conservation (EdgeOK in Spec/Compose.lean)
+    "C04": ["pos", "buf", "bufedge", "fleet", "slot", "cbelt"],
     "C05": ["pos", "buf", "prq"], "C06": ["pos", "buf", "bufedge", "fleet", "slot", "cbelt"],
     "C07": ["pos", "buf", "bufedge", "fleet", "slot", "cbelt"],
-    "C10": ["pos", "buf"], "C11": ["bufedge", "buf"], "C12": ["slot", "cbelt"], "C13": ["slot", "cbelt"], "C14": ["fleet"],
+    "C10": ["pos", "buf"], "C11": ["bufedge", "buf", "fleet"], "C12": ["slot", "cbelt"], "C13": ["slot", "cbelt"], "C14": ["fleet"],
     "C18": ["pos", "bufedge", "fleet", "slot", "cbelt"], "C19": ["pos", "buf"],
     "C20": ["prq", "fleet", "cbelt"],
 }
 # judge property ids that decide each property at store level
 JUDGE_PROPS = {p: [p] for p in STORE_FAMILIES}
 JUDGE_PROPS["C11"] = ["C11", "C04"]
+JUDGE_PROPS["C03"] = ["C02"]       # an edge that loses, duplicates or invents an item breaks the factory-wide identity
 JUDGE_PROPS["C10"] = ["C04"]       # store side of "never stranded" = no lost wake-up   # "retrievable from t+d onwards" is judged by the wake-up rule on timed stores
 
 # properties that (also) depend on the node automata and factory-level judges
@@ -201,7 +203,7 @@ def check_property(pid, tier, seed):
             fresh.sort(key=lambda x: len(r.traces[x[0]][1]))
             i, ln, rule, msg = fresh[0]
             h, ops, il = r.traces[i]
-            small = shrink(h, list(ops[:ln + 1]), lambda hh, oo: store_family.judge_fails(pid, hh, oo, rule))
+            small = shrink(h, list(ops[:ln + 1]), lambda hh, oo: store_family.judge_fails(JUDGE_PROPS[pid], hh, oo, rule))
             sl = run_impl(h, small)
             path = checklib.write_replay(pid, seed, "judge", h, small,
                                          dict(message=msg, rule=rule, observed=fmt_hist(h, small, sl), traces_failing=len(fresh)))
@@ -222,14 +224,14 @@ def check_property(pid, tier, seed):
             found = None
             for (j, dj) in r.div:
                 hj, oj, ilj = r.traces[j]
-                if store_family.judge_fails(pid, hj, oj):
+                if store_family.judge_fails(JUDGE_PROPS[pid], hj, oj):
                     found = (hj, oj); break
             detail = dict(facet=f"lockstep:{fam}", diverging_histories=len(r.div),
                           minimal=[f"{render(o)}    => impl: {a}    model: {b}" for o, a, b in zip(small, sl, ml)],
                           header=h)
             if found:
                 hj, oj = found
-                sm = shrink(hj, list(oj), lambda hh, oo: store_family.judge_fails(pid, hh, oo))
+                sm = shrink(hj, list(oj), lambda hh, oo: store_family.judge_fails(JUDGE_PROPS[pid], hh, oo))
                 path = checklib.write_replay(pid, seed, "judge-after-divergence", hj, sm, dict(detail, observed=fmt_hist(hj, sm, run_impl(hj, sm))))
                 violations.append((path, "judge fails on a diverging history"))
             else:
